@@ -6,7 +6,7 @@
    Part 3 (last theorem): the linear-time clause, refuted for AMF0.
    ------------------------------------------------------------------------------------------ *)
 
-From Verif Require Proofs.Amf0 Proofs.RtmpChunk Proofs.RtmpPacket Proofs.FlvTotal Proofs.FlvPack Proofs.Aac Proofs.Avc Proofs.JsonPlusTotal Proofs.JoseFixed Proofs.JoseCipher Proofs.JoseWrap Proofs.Amf0Cost.
+From Verif Require Proofs.Amf0 Proofs.RtmpChunk Proofs.RtmpPacket Proofs.FlvTotal Proofs.FlvPack Proofs.Aac Proofs.Avc Proofs.WsReadProps Proofs.JsonPlusTotal Proofs.JoseFixed Proofs.JoseCipher Proofs.JoseWrap Proofs.Amf0Cost.
 
 (* AMF0: Discovery + UnmarshalBinary of every value type, every nesting, every byte string (any fuel) *)
 Theorem c07_amf0_dec_total :
@@ -76,6 +76,20 @@ Proof. exact Verif.Proofs.Avc.sample_unmarshal_total. Qed.
 Theorem c07_avc_nalu_dec_total :
     forall (data : bytes) (s : N), Avc.nalu_unmarshal data <> Panic s.
 Proof. exact Verif.Proofs.Avc.nalu_total. Qed.
+
+(* WebSocket frame reader *)
+Theorem c07_ws_read_total :
+    forall (server : bool) (limit : Z) (extra : nat) (bs : bytes),
+    wf_bytes bs ->
+    limit < 9223372036854775808 ->
+    (extra < 999)%nat -> forall s : N, WsRead.lib_session true server limit extra bs <> Panic s.
+Proof. exact Verif.Proofs.WsReadProps.ws_read_total. Qed.
+
+(* WebSocket frame reader, fixed and pinned behaviour, from every input *)
+Theorem c07_ws_read_total_all :
+    forall (fixed server : bool) (limit : Z) (extra : nat) (inp : bytes) (s : N),
+    (extra < 999)%nat -> WsRead.lib_session fixed server limit extra inp <> Panic s.
+Proof. exact Verif.Proofs.WsReadProps.ws_read_total_all. Qed.
 
 (* JSON+ reader over every segmentation of the input: no panic and never out of fuel (it always returns) *)
 Theorem c07_jsonplus_total :
